@@ -1,6 +1,258 @@
-(* C10 — evolutionary operators preserve population invariants (placeholder while the proofs are being written). *)
-From QV Require Import Evqe.Heap Evqe.Ops_proofs.
+(* C10 — evolutionary operators preserve population invariants.
+   Property theorems only: each closed by `exact <lemma>` and followed by Print Assumptions.
+   Models: Evqe/{Population,Speciation,Selection,Mutation,Heap}.v (over Evqe/Genome.v).  Universally quantified in every
+   theorem: the type V of parameter values, the equality `ieq` used as `==` on individuals (ANY equivalence relation;
+   the implementation's hash equality individual_heq is one, C10_eq_is_equivalence), the evaluator oracle `ev`,
+   thresholds, probabilities, decision streams, per-task logs (optimiser answers, generated layers), completion
+   orders pi, and the variant flag of optimize_layer where it does not matter. *)
+From QV Require Import Evqe.Heap Evqe.Speciation_proofs Evqe.Ops_proofs Evqe.Heap_proofs Evqe.Completes_proofs.
+From Coq Require Import Permutation Sorting.Sorted.
+Open Scope Z_scope.
 
-Theorem C10_placeholder : forall A (l : list A) i x l', set_nth l i x = Ok l' -> length l' = length l.
-Proof. exact @set_nth_length. Qed.
-Print Assumptions C10_placeholder.
+(* ---- size / validity / qubits: every operator, every log *)
+Theorem C10_size_valid :
+  forall (V : Type) (veqb : V -> V -> bool) (ieq : individual V -> individual V -> bool) (zero : V),
+    (forall x, ieq x x = true) -> (forall x y, ieq x y = true -> ieq y x = true) ->
+    (forall x y z, ieq x y = true -> ieq y z = true -> ieq x z = true) ->
+  forall (ev : individual V -> result Q) (legacy_opt : bool) (n : Z) (o : op) (lgs : oplog V) (p : population V) cbs p',
+    pop_valid n p = true ->
+    run_op veqb ieq zero ev legacy_opt o lgs p = (cbs, Ok p') ->
+    pop_valid n p' = true /\ length (p_inds p') = length (p_inds p).
+Proof. exact @op_size_valid. Qed.
+Print Assumptions C10_size_valid.
+
+(* ---- speciation: partition, for all incoming representative lists (stale, duplicate), thresholds, streams *)
+Theorem C10_speciation_partition :
+  forall (V : Type) (ieq : individual V -> individual V -> bool),
+    (forall x, ieq x x = true) -> (forall x y, ieq x y = true -> ieq y x = true) ->
+    (forall x y z, ieq x y = true -> ieq y z = true -> ieq x z = true) ->
+  forall (thr : Z) (p : population V) (s : ostream) p' ext s',
+    speciate ieq thr p s = Ok (p', ext, s') ->
+    exists mem ms,
+      p_inds p' = p_inds p /\ p_members p' = Some mem /\ p_membership p' = Some ms /\ p_reps p' = Some (map fst mem) /\
+      Permutation (concat (map snd mem)) (seq 0 (length (p_inds p))) /\
+      (forall r l, In (r, l) mem -> l <> [] /\ exists i, In i l /\ nth_error (p_inds p) i = Some r) /\
+      (forall i r, dict_get Nat.eqb ms i = Some r <-> exists l, In (r, l) mem /\ In i l) /\
+      kd ieq mem /\ (forall r l, In (r, l) mem -> dict_get ieq mem r = Some l).
+Proof. exact @speciation_partition. Qed.
+Print Assumptions C10_speciation_partition.
+
+(* speciation completes: the only way the model fails is a stream that is not a stream of this program *)
+Theorem C10_speciation_never_raises :
+  forall (V : Type) (ieq : individual V -> individual V -> bool),
+    (forall x, ieq x x = true) -> (forall x y, ieq x y = true -> ieq y x = true) ->
+    (forall x y z, ieq x y = true -> ieq y z = true -> ieq x z = true) ->
+  forall (thr : Z) (p : population V) (s : ostream) e, speciate ieq thr p s = Err e -> e = StreamMismatch.
+Proof. exact @speciation_no_exception. Qed.
+Print Assumptions C10_speciation_never_raises.
+
+(* ---- the executor: collection by index is aligned for EVERY completion order, and completes for every permutation *)
+Theorem C10_executor_alignment :
+  forall (R : Type) (tasks : list R) (pi : list nat),
+    (forall done, exec_run tasks pi = Ok done -> done = tasks)
+    /\ (Permutation pi (seq 0 (length tasks)) -> exec_run tasks pi = Ok tasks).
+Proof. intros R tasks pi. split; [exact (@exec_run_aligned R tasks pi)|exact (@exec_run_permutation R tasks pi)]. Qed.
+Print Assumptions C10_executor_alignment.
+
+Theorem C10_as_completed_refuted :
+  exists (tasks : list nat) pi, Permutation pi (seq 0 (length tasks)) /\ exec_run_as_completed tasks pi <> Ok tasks.
+Proof. exact exec_run_as_completed_misaligned. Qed.
+Print Assumptions C10_as_completed_refuted.
+
+(* ---- selection *)
+(* expectation_values[i] is the evaluator's answer for individuals[i], whatever the completion order *)
+Theorem C10_selection_alignment :
+  forall (V : Type) (ieq : individual V -> individual V -> bool) (ev : individual V -> result Q)
+         (cfg : sel_config) (p : population V) (pi : list nat) (s : ostream),
+    Permutation pi (seq 0 (length (p_inds p))) ->
+    selection_op ieq ev cfg p pi s =
+    match mapM ev (p_inds p) with
+    | Err e => ([], Err e)
+    | Ok values => select_after_eval ieq cfg p values s
+    end.
+Proof. exact @selection_alignment. Qed.
+Print Assumptions C10_selection_alignment.
+
+Theorem C10_selection_values :
+  forall (V : Type) (ieq : individual V -> individual V -> bool) (ev : individual V -> result Q)
+         (cfg : sel_config) (p : population V) (pi : list nat) (s : ostream) cbs r,
+    selection_op ieq ev cfg p pi s = (cbs, r) ->
+    (cbs = [] /\ exists e, r = Err e) \/
+    (exists values, Forall2 (fun x v => ev x = Ok v) (p_inds p) values /\ select_after_eval ieq cfg p values s = (cbs, r)).
+Proof. exact @selection_values. Qed.
+Print Assumptions C10_selection_values.
+
+(* one evaluation per individual reported, best = first minimum, output drawn from the input, same size *)
+Theorem C10_selection :
+  forall (V : Type) (ieq : individual V -> individual V -> bool) (cfg : sel_config) (p : population V)
+         (values : list Q) (s : ostream) cbs p',
+    length values = length (p_inds p) ->
+    select_after_eval ieq cfg p values s = (cbs, Ok p') ->
+    (exists bi bx bv, cbs = [CbCount (Z.of_nat (length (p_inds p))); CbResult (mkRes p values bx bv)]
+                      /\ nth_error (p_inds p) bi = Some bx /\ nth_error values bi = Some bv /\ first_min values bi)
+    /\ length (p_inds p') = length (p_inds p)
+    /\ (forall x, In x (p_inds p') -> In x (p_inds p))
+    /\ p_reps p' = p_reps p /\ p_reps p <> None /\ p_members p' = None /\ p_membership p' = None.
+Proof. exact @selection_spec. Qed.
+Print Assumptions C10_selection.
+
+(* ---- mutation *)
+Theorem C10_mutation_contracts :
+  forall (V : Type) (veqb : V -> V -> bool) (zero : V) (legacy_opt : bool) (k : mut_kind) (prob : Q)
+         (p : population V) (pi : list nat) (s : ostream) (tls : list (task_log V)) cbs p',
+    Forall (fun x => individual_is_valid x = true) (p_inds p) ->
+    mutation_op veqb zero legacy_opt k prob p pi s tls = (cbs, Ok p') ->
+    Forall2 (fun x x' => x' = x \/ contract k x x') (p_inds p) (p_inds p')
+    /\ p_reps p' = p_reps p /\ p_members p' = None /\ p_membership p' = None
+    /\ exists total, cbs = [CbCount total].
+Proof. exact @mutation_contracts. Qed.
+Print Assumptions C10_mutation_contracts.
+
+(* repaired variant: a layer without parameters is left alone *)
+Theorem C10_parameterless_layer_left_alone :
+  forall (V : Type) (veqb : V -> V -> bool) (x : individual V) (layer_id : Z) (s : list (titem V)),
+    i_layers x <> [] -> get_layer_parameter_values x layer_id = [] ->
+    optimize_layer veqb false x layer_id s = Ok (x, 0, s).
+Proof. exact @optimize_layer_empty. Qed.
+Print Assumptions C10_parameterless_layer_left_alone.
+
+(* only the slice of the optimised layer changes *)
+Theorem C10_parameter_search_slice :
+  forall (V : Type) (veqb : V -> V -> bool) (lg : bool) (x : individual V) (lid : Z) s x' n s',
+    optimize_layer veqb lg x lid s = Ok (x', n, s') ->
+    x' = x \/ exists new, let k := wrap_layer_id x lid in
+                          i_values x' = firstn (layer_offset (i_layers x) k) (i_values x) ++ new
+                                        ++ skipn (layer_offset (i_layers x) k + layer_count (i_layers x) k) (i_values x).
+Proof. exact @optimize_layer_values. Qed.
+Print Assumptions C10_parameter_search_slice.
+
+(* write-back by index does not depend on the completion order *)
+Theorem C10_mutation_order_independent :
+  forall (V : Type) (veqb : V -> V -> bool) (zero : V) (lg : bool) (k : mut_kind) (prob : Q) (p : population V)
+         (pi1 pi2 : list nat) (s : ostream) (tls : list (task_log V)) (m : nat),
+    Permutation pi1 (seq 0 m) -> Permutation pi2 (seq 0 m) -> length tls = m ->
+    mutation_op veqb zero lg k prob p pi1 s tls = mutation_op veqb zero lg k prob p pi2 s tls.
+Proof. exact @mutation_order_independent. Qed.
+Print Assumptions C10_mutation_order_independent.
+
+(* per-task seeds are drawn in submission order, tasks are submitted in population order *)
+Theorem C10_seeds_in_submission_order :
+  forall (V : Type) (p : Q) (xs : list (individual V)) (i : nat) (s : ostream) subs s',
+    submit_all p i xs s = Ok (subs, s') ->
+    exists used, s = used ++ s' /\ map snd subs = randints used
+                 /\ StronglySorted lt (map (fun t => fst (fst t)) subs)
+                 /\ Forall (fun t => (i <= fst (fst t))%nat) subs.
+Proof. exact @submit_all_seeds. Qed.
+Print Assumptions C10_seeds_in_submission_order.
+
+Theorem C10_legacy_empty_layer_refuted :
+  pop_valid 1 legacy_witness = true
+  /\ mutation_op Z.eqb 0 true MLastLayer 1 legacy_witness [0%nat] legacy_witness_stream legacy_witness_tasks = ([], Err "ValueError"%string)
+  /\ mutation_op Z.eqb 0 false MLastLayer 1 legacy_witness [0%nat] legacy_witness_stream legacy_witness_tasks
+     = ([CbCount 0], Ok legacy_witness).
+Proof. exact legacy_empty_layer_refuted. Qed.
+Print Assumptions C10_legacy_empty_layer_refuted.
+
+(* ---- sequences *)
+Theorem C10_sequences :
+  forall (V : Type) (veqb : V -> V -> bool) (ieq : individual V -> individual V -> bool) (zero : V),
+    (forall x, ieq x x = true) -> (forall x y, ieq x y = true -> ieq y x = true) ->
+    (forall x y z, ieq x y = true -> ieq y z = true -> ieq x z = true) ->
+  forall (ev : individual V -> result Q) (lg : bool) (n : Z) (steps : list (op * oplog V)) (p : population V),
+    pop_valid n p = true ->
+    Forall (fun oc => forall p', snd oc = Ok p' -> pop_valid n p' = true /\ length (p_inds p') = length (p_inds p))
+           (run_seq veqb ieq zero ev lg steps p).
+Proof. exact @seq_size_valid. Qed.
+Print Assumptions C10_sequences.
+
+(* the documented precondition: a selection not directly preceded by a speciation raises *)
+Theorem C10_sequences_missing_speciation :
+  forall (V : Type) (veqb : V -> V -> bool) (ieq : individual V -> individual V -> bool) (zero : V),
+    (forall x, ieq x x = true) -> (forall x y, ieq x y = true -> ieq y x = true) ->
+    (forall x y z, ieq x y = true -> ieq y z = true -> ieq x z = true) ->
+  forall (ev : individual V -> result Q) (lg : bool) o1 lg1 cfg lg2 rest (p : population V),
+    (match o1 with OSpeciation _ => False | _ => True end) ->
+    forall ocs, run_seq veqb ieq zero ev lg ((o1, lg1) :: (OSelection cfg, lg2) :: rest) p = ocs ->
+    match ocs with
+    | [oc1] => exists e, snd oc1 = Err e
+    | [oc1; oc2] => exists e, snd oc2 = Err e
+    | _ => False
+    end.
+Proof. exact @seq_selection_needs_speciation. Qed.
+Print Assumptions C10_sequences_missing_speciation.
+
+(* ---- the implementation's `==` (hash equality) is an equivalence relation, so all of the above applies to it *)
+Theorem C10_eq_is_equivalence :
+  (forall x : individual Z, individual_heq Z.eqb x x = true)
+  /\ (forall x y : individual Z, individual_heq Z.eqb x y = true -> individual_heq Z.eqb y x = true)
+  /\ (forall x y z : individual Z, individual_heq Z.eqb x y = true -> individual_heq Z.eqb y z = true -> individual_heq Z.eqb x z = true).
+Proof.
+  exact (conj (individual_heq_refl Z.eqb Z.eqb_refl)
+           (conj (individual_heq_sym Z.eqb (fun x y H => eq_trans (Z.eqb_sym y x) H))
+                 (individual_heq_trans Z.eqb (fun x y z H1 H2 => proj2 (Z.eqb_eq x z) (eq_trans (proj1 (Z.eqb_eq x y) H1) (proj1 (Z.eqb_eq y z) H2)))))).
+Qed.
+Print Assumptions C10_eq_is_equivalence.
+
+(* ... and it is strictly coarser than structural equality: two valid individuals with different circuits (genetic
+   distance 1) compare equal, because the generated dataclass hashes of the gates ignore the gate class.  Recorded
+   because it decides what "the same representative" means in every dict of the population. *)
+Theorem C10_eq_identifies_different_individuals :
+  exists a b : individual Z,
+    individual_is_valid a = true /\ individual_is_valid b = true
+    /\ individual_eqb Z.eqb a b = false /\ individual_heq Z.eqb a b = true /\ genetic_distance a b = 1.
+Proof. exact heq_identifies_different_individuals. Qed.
+Print Assumptions C10_eq_identifies_different_individuals.
+
+(* ---- non-vacuity: a concrete four-operator run (speciation; selection; topological search; speciation) on a valid
+   population completes, satisfies the sequence precondition, and its speciations return partitions *)
+Example C10_example_run :
+  let ocs := run_seq Z.eqb (individual_heq Z.eqb) 0 w_ev false w_steps w_pop in
+  length ocs = 4%nat /\ forallb (fun oc => is_ok (snd oc)) ocs = true
+  /\ pop_valid 1 w_pop = true
+  /\ selection_after_speciation false (map fst w_steps) = true
+  /\ forallb (fun oc => match snd oc with
+                        | Ok p => match p_members p with Some _ => partition_ok (individual_heq Z.eqb) p | None => true end
+                        | Err _ => false end) ocs = true.
+Proof. exact witness_run_seq. Qed.
+Print Assumptions C10_example_run.
+
+(* ---- "applying any sequence ... completes": no operator raises a Python exception *)
+(* One application.  step_ok: alpha, beta >= 0 and tournament size >= 1 (selection); the optimiser answers with as many
+   values as it was given (mutation; a generated layer that is not a valid layer on the same qubits is reported as
+   OracleContract by the model itself).  species_consistent: species information as speciation returns it. *)
+Theorem C10_operator_completes :
+  forall (V : Type) (veqb : V -> V -> bool) (ieq : individual V -> individual V -> bool) (zero : V),
+    (forall x, ieq x x = true) -> (forall x y, ieq x y = true -> ieq y x = true) ->
+    (forall x y z, ieq x y = true -> ieq y z = true -> ieq x z = true) ->
+  forall (ev : individual V -> result Q), (forall x, exists v, ev x = Ok v) ->
+  forall (n : Z) (o : op) (lgs : oplog V) (p : population V) cbs e,
+    pop_valid n p = true -> p_inds p <> [] -> step_ok (o, lgs) ->
+    (match o with OSelection _ => species_consistent ieq p | _ => True end) ->
+    run_op veqb ieq zero ev false o lgs p = (cbs, Err e) -> is_log_error e = true.
+Proof. exact @op_completes. Qed.
+Print Assumptions C10_operator_completes.
+
+(* Any operator sequence in which each selection is directly preceded by a speciation, on a valid non-empty population
+   (individuals whose last layer carries no parameters included: validity does not exclude them), for all streams, logs
+   and completion orders: every Err of the run is an artefact of the log (StreamMismatch / OracleContract / a completion
+   order that is no permutation), never a Python exception.  Repaired variant (legacy_opt = false); the legacy variant
+   is refuted by C10_legacy_empty_layer_refuted. *)
+Theorem C10_completes :
+  forall (V : Type) (veqb : V -> V -> bool) (ieq : individual V -> individual V -> bool) (zero : V),
+    (forall x, ieq x x = true) -> (forall x y, ieq x y = true -> ieq y x = true) ->
+    (forall x y z, ieq x y = true -> ieq y z = true -> ieq x z = true) ->
+  forall (ev : individual V -> result Q), (forall x, exists v, ev x = Ok v) ->
+  forall (n : Z) (steps : list (op * oplog V)) (p : population V) (prev_spec : bool),
+    pop_valid n p = true -> p_inds p <> [] ->
+    (prev_spec = true -> species_consistent ieq p) ->
+    selection_after_speciation prev_spec (map fst steps) = true ->
+    Forall step_ok steps ->
+    Forall (fun oc => forall e, snd oc = Err e -> is_log_error e = true) (run_seq veqb ieq zero ev false steps p).
+Proof. exact @seq_completes. Qed.
+Print Assumptions C10_completes.
+
+Example C10_completes_hypotheses_satisfiable :
+  Forall (step_ok (V := Z)) w_steps /\ (forall x, exists v, w_ev x = Ok v)
+  /\ pop_valid 1 w_pop = true /\ p_inds w_pop <> [] /\ selection_after_speciation false (map fst w_steps) = true.
+Proof. exact witness_steps_ok. Qed.
+Print Assumptions C10_completes_hypotheses_satisfiable.
